@@ -39,25 +39,67 @@ def n_internal(shape):
     return 0 if shape == () else 1 + n_internal(shape[0]) + n_internal(shape[1])
 
 
-def build_tree(kmod, U, shape, feats, thrs, targets):
-    """real Tree grown with _add_child; internal nodes consume feats/thrs, leaves consume targets (pre-order)."""
-    t = kmod.Tree()
-    it_f, it_t, it_c = iter(feats), iter(thrs), iter(targets)
+def _preorder(shape):
+    """[(path, is_leaf)] in pre-order; a path is a tuple of 0/1 (left/right) from the root"""
+    out = []
 
-    def first_leaf_target(sh, peek):
-        return peek
+    def walk(sh, path):
+        out.append((path, sh == ()))
+        if sh != ():
+            walk(sh[0], path + (0,))
+            walk(sh[1], path + (1,))
+    walk(shape, ())
+    return out
 
-    def grow(node, sh):
-        if sh == ():
-            t.target[node] = next(it_c)
+
+def split_orders(shape, limit=None):
+    """every order in which the internal nodes can have been split (a parent before its children), as lists of pre-order indices
+    of internal nodes; the first one is the pre-order itself.  Kauri grows best-gain-first, so any of them occurs."""
+    nodes = [p for p, leaf in _preorder(shape) if not leaf]
+    idx = {p: i for i, p in enumerate(nodes)}
+    out = []
+
+    def rec(done, avail, acc):
+        if limit is not None and len(out) >= limit:
             return
-        f, thr = next(it_f), next(it_t)
+        if not avail:
+            out.append(list(acc))
+            return
+        for p in sorted(avail, key=lambda q: idx[q]):
+            nxt = set(avail)
+            nxt.discard(p)
+            for c in (p + (0,), p + (1,)):
+                if c in idx:
+                    nxt.add(c)
+            rec(done | {p}, nxt, acc + [idx[p]])
+    if nodes:
+        rec(frozenset(), {()}, [])
+    else:
+        out.append([])
+    return out
+
+
+def build_tree(kmod, U, shape, feats, thrs, targets, order=None):
+    """real Tree grown with _add_child.  Internal nodes take feats/thrs and leaves take targets in PRE-ORDER of the shape, whatever
+    the order (a list of pre-order indices of internal nodes, default: pre-order) in which the splits are performed -- node ids, and
+    with them the layout of the Tree arrays, depend on that order, the function the tree computes does not."""
+    t = kmod.Tree()
+    pre = _preorder(shape)
+    internal = [p for p, leaf in pre if not leaf]
+    leaves = [p for p, leaf in pre if leaf]
+    f_of = {p: (feats[i], thrs[i]) for i, p in enumerate(internal)}
+    c_of = {p: targets[i] for i, p in enumerate(leaves)}
+    node_of = {(): 0}
+    for k in (order if order is not None else range(len(internal))):
+        p = internal[k]
+        node = node_of[p]
+        f, thr = f_of[p]
         sp = U.Split(1.0, 0, 7, 8, f, thr, False)     # 7/8: stale targets of internal children must never be printed as clusters
         t._add_child(node, sp)
-        l, r = t.children_left[node], t.children_right[node]
-        grow(l, sh[0])
-        grow(r, sh[1])
-    grow(0, shape)
+        node_of[p + (0,)] = t.children_left[node]
+        node_of[p + (1,)] = t.children_right[node]
+    for p in leaves:
+        t.target[node_of[p]] = c_of[p]
     return t
 
 
@@ -116,6 +158,10 @@ def apply_rules(rules, x):
     return rules[1]
 
 
+# thresholds are data values: doubles whose shortest repr needs 17 significant digits, small and large magnitudes, neighbours
+AWKWARD = [-0.024393796838145684, 0.30000000000000004, 1.0000000000000002e-05, float(np.nextafter(-0.024393796838145684, 1.0)), 123456.78901234567]
+
+
 def job(L, name_mode, timeout_q=5.0):
     loader.install()
     res = {"paths": 0, "queries": 0, "obligations": [], "violations": [], "validated": 0, "witnesses": 0, "samples": [], "trees": 0}
@@ -126,67 +172,73 @@ def job(L, name_mode, timeout_q=5.0):
     seen = set()
     for shape in shapes(L):
         ni = n_internal(shape)
+        orders = split_orders(shape)
         for feats in itertools.product(range(d), repeat=ni):
-            for toff in range(2):
-                thrs = [thr_pool[(i + toff * 2) % len(thr_pool)] for i in range(ni)]
+            for toff in range(3):
+                thrs = [thr_pool[(i + toff * 2) % len(thr_pool)] for i in range(ni)] if toff < 2 else [AWKWARD[i % len(AWKWARD)] for i in range(ni)]
                 targets = [(i + toff) % 3 for i in range(L)]
-                res["trees"] += 1
-                tree = None
-                box = {}
-
-                def setup():
-                    tr = build_tree(kmod, U, shape, feats, thrs, targets)
-                    mdl = kmod.Kauri()
-                    mdl.tree_ = tr
-                    mdl.labels_ = np.zeros(1, dtype=int)
-                    mdl.n_features_in_ = d
-                    box["mdl"] = mdl
-                    return mdl
-
-                def body(mdl):
-                    if name_mode == "default":
-                        names, n2f = None, {f"X[:, {f}]": f for f in range(d)}
-                    else:
-                        names = [f"feat_{chr(97 + f)}" for f in range(d)]
-                        n2f = {nm: f for f, nm in enumerate(names)}
-                    buf = io.StringIO()
-                    with contextlib.redirect_stdout(buf):
-                        kmod.print_kauri_tree(mdl, feature_names=names)
-                    text = buf.getvalue()
-                    rules = read_back(text, n2f)
-                    x = np.empty((1, d), dtype=object)
-                    for f in range(d):
-                        x[0, f] = core.var(f"q_{f}")
-                    pred = int(np.asarray(mdl.tree_.predict(x))[0])
-                    got = apply_rules(rules, x[0])
-                    return pred, got, text
-
-                ex = Explorer(max_paths=200)
-                tag = f"L{L}/{name_mode}/shape{shapes(L).index(shape)}/f{''.join(map(str, feats))}/t{toff}"
-                for out, pc, trace in ex.run(body, setup):
-                    res["paths"] += 1
-                    if isinstance(out, PathError):
-                        bad, how = True, repr(out)[:200]
-                        text = ""
-                    else:
-                        pred, got, text = out
-                        bad, how = pred != got, f"predict={pred} text={got}"
-                    res["obligations"].append({"name": f"{tag}/path{res['paths']}/text == predict", "verdict": "sat" if bad else "unsat", "how": "path-evaluation" if not bad else how})
-                    if bad:
-                        v, model = harness.reachable(pc, timeout_s=timeout_q)
-                        res["queries"] += 1
-                        rep = {"kind": "tree", "shape": _shape_json(shape), "feats": list(feats), "thrs": thrs, "targets": targets, "name_mode": name_mode,
-                               "point": [float(model.get(f"q_{f}", 0)) for f in range(d)] if model else [0.0] * d}
-                        sig = f"{PROP}:unfaithful:{name_mode}"
-                        if v == "sat" and sig not in seen and replay(rep):
-                            seen.add(sig)
-                            res["violations"].append({"signature": sig, "what": "the printed tree, read back, assigns a point a different cluster than predict" +
-                                                      (" (user feature names)" if name_mode != "default" else ""), "replay": rep})
-                        elif sig not in seen:
-                            res["obligations"][-1]["verdict"] = "inconclusive"
-                    if len(res["samples"]) < 1 and text:
-                        res["samples"].append({"tree": tag, "printed": text.split("\n")[:12]})
+                # every split order for one threshold set, the pre-order for the others
+                for oi, order in enumerate(orders if toff == 0 else orders[:1]):
+                    res["trees"] += 1
+                    tag = f"L{L}/{name_mode}/shape{shapes(L).index(shape)}/f{''.join(map(str, feats))}/t{toff}" + (f"/order{oi}" if oi else "")
+                    _check_tree(res, seen, kmod, U, d, shape, feats, thrs, targets, order, name_mode, tag, timeout_q)
     return res
+
+
+def _check_tree(res, seen, kmod, U, d, shape, feats, thrs, targets, order, name_mode, tag, timeout_q):
+    box = {}
+
+    def setup():
+        tr = build_tree(kmod, U, shape, feats, thrs, targets, order=order)
+        mdl = kmod.Kauri()
+        mdl.tree_ = tr
+        mdl.labels_ = np.zeros(1, dtype=int)
+        mdl.n_features_in_ = d
+        box["mdl"] = mdl
+        return mdl
+
+    def body(mdl):
+        if name_mode == "default":
+            names, n2f = None, {f"X[:, {f}]": f for f in range(d)}
+        else:
+            names = [f"feat_{chr(97 + f)}" for f in range(d)]
+            n2f = {nm: f for f, nm in enumerate(names)}
+        buf = io.StringIO()
+        with contextlib.redirect_stdout(buf):
+            kmod.print_kauri_tree(mdl, feature_names=names)
+        text = buf.getvalue()
+        rules = read_back(text, n2f)
+        x = np.empty((1, d), dtype=object)
+        for f in range(d):
+            x[0, f] = core.var(f"q_{f}")
+        pred = int(np.asarray(mdl.tree_.predict(x))[0])
+        got = apply_rules(rules, x[0])
+        return pred, got, text
+
+    ex = Explorer(max_paths=200)
+    for out, pc, trace in ex.run(body, setup):
+        res["paths"] += 1
+        if isinstance(out, PathError):
+            bad, how = True, repr(out)[:200]
+            text = ""
+        else:
+            pred, got, text = out
+            bad, how = pred != got, f"predict={pred} text={got}"
+        res["obligations"].append({"name": f"{tag}/path{res['paths']}/text == predict", "verdict": "sat" if bad else "unsat", "how": "path-evaluation" if not bad else how})
+        if bad:
+            v, model = harness.reachable(pc, timeout_s=timeout_q)
+            res["queries"] += 1
+            rep = {"kind": "tree", "shape": _shape_json(shape), "feats": list(feats), "thrs": thrs, "targets": targets, "name_mode": name_mode, "order": order,
+                   "point": [float(model.get(f"q_{f}", 0)) for f in range(d)] if model else [0.0] * d}
+            sig = f"{PROP}:unfaithful:{name_mode}"
+            if v == "sat" and sig not in seen and replay(rep):
+                seen.add(sig)
+                res["violations"].append({"signature": sig, "what": "the printed tree, read back, assigns a point a different cluster than predict" +
+                                          (" (user feature names)" if name_mode != "default" else ""), "replay": rep})
+            elif sig not in seen:
+                res["obligations"][-1]["verdict"] = "inconclusive"
+        if len(res["samples"]) < 1 and text:
+            res["samples"].append({"tree": tag, "printed": text.split("\n")[:12]})
 
 
 def _shape_json(shape):
@@ -238,7 +290,7 @@ def replay(rep, verbose=False):
     kmod = loader.real("tree.kauri")
     U = loader.real("tree._utils")
     d = 3
-    t = build_tree(kmod, U, _shape_from(rep["shape"]), rep["feats"], rep["thrs"], rep["targets"])
+    t = build_tree(kmod, U, _shape_from(rep["shape"]), rep["feats"], rep["thrs"], rep["targets"], order=rep.get("order"))
     mdl = kmod.Kauri()
     mdl.tree_ = t
     mdl.labels_ = np.zeros(1, dtype=int)
@@ -260,7 +312,7 @@ def replay(rep, verbose=False):
     # the solver's point, plus a grid around every threshold
     pts = [np.array(rep["point"], dtype=float)]
     vals = sorted(set(rep["thrs"]))
-    grid = sorted(set([v for v in vals] + [v - 0.5 for v in vals] + [v + 0.5 for v in vals]))
+    grid = sorted(set([v for v in vals] + [v - 0.5 for v in vals] + [v + 0.5 for v in vals] + [float(np.nextafter(v, np.inf)) for v in vals] + [float(np.nextafter(v, -np.inf)) for v in vals]))
     for combo in itertools.product(grid, repeat=d):
         pts.append(np.array(combo))
     for x in pts:
